@@ -1868,7 +1868,7 @@ fn main() {
 
         // ---- LockFreeMemoryPool: bins ..,128,144,160,..: 136 and 144 share a bin; 4 blocks of 152 exhaust 512 bytes
         let lf = [128usize, 136, 144, 152];
-        reg.add(lockfree("LockFreeMemoryPool[compact,512B]", lf_compact_512, &lf, true, false, 5, 6));
+        reg.add(lockfree("LockFreeMemoryPool[compact,512B]", lf_compact_512, &lf, true, false, 5, 7));
         reg.add(lockfree("LockFreeMemoryPool[default,512B]", lf_default_512, &lf, false, false, 4, 5));
         reg.add(lockfree("LockFreeMemoryPool[high_performance,1KiB]", lf_hiperf_1024, &[1, 8, 9, 16], false, false, 4, 5));
         reg.add(lockfree("LockFreeMemoryPool[default,512B,zero_on_free]", lf_zero_512, &[56, 64, 65, 72], false, true, 4, 5));
@@ -1876,14 +1876,14 @@ fn main() {
         reg.add(lockfree("LockFreeMemoryPool[compact,40KiB]/large", lf_large, &[8185, 8192, 8193, 0xFFFF_FFF8], false, false, 4, 5));
 
         // ---- memory::ThreadLocalMemoryPool: classes 16,32,48,64,..; requests are rounded to 8 on allocation only
-        reg.add(tlm("ThreadLocalMemoryPool[compact,arena=256]", tlm_compact_tiny, &[16, 17, 32, 64], 4, 5, 6));
+        reg.add(tlm("ThreadLocalMemoryPool[compact,arena=256]", tlm_compact_tiny, &[16, 17, 32, 64], 4, 5, 7));
         // 4 x 32 bytes fill the 128-byte hot area; the 5th block needs a new one
         reg.add(tlm("ThreadLocalMemoryPool[compact,arena=128]", tlm_compact_128, &[16, 32], 5, 5, 6));
         reg.add(tlm("ThreadLocalMemoryPool[default]", tlm_default, &[1, 48, 49, 4096, 4097], 4, 4, 5));
         reg.add(tlm("ThreadLocalMemoryPool[high_performance,arena=1KiB]", tlm_hiperf_tiny, &[96, 97, 128, 257], 4, 4, 5));
 
         // ---- FixedCapacityMemoryPool
-        reg.add(fixedcap("FixedCapacityMemoryPool[small_objects,3 blocks]", fc_small3, &[1, 128, 129, 1024, 1025], 5, 6));
+        reg.add(fixedcap("FixedCapacityMemoryPool[small_objects,3 blocks]", fc_small3, &[1, 128, 129, 1024, 1025], 5, 7));
         reg.add(fixedcap("FixedCapacityMemoryPool[medium_objects,2 blocks]", fc_medium2, &[1, 16, 17, 65536, 65537], 4, 5));
         reg.add(fixedcap("FixedCapacityMemoryPool[realtime,3 blocks]", fc_realtime3, &[64, 127, 8192, 8193], 5, 6));
         reg.add(fixedcap("FixedCapacityMemoryPool[secure,3 blocks,lazy]", fc_secure3_lazy, &[8, 127, 192, 4096], 5, 6));
@@ -1908,13 +1908,13 @@ fn main() {
 
         // ---- five-level family
         let f8 = [8usize, 9, 64, 65];
-        reg.add(five("five_level::NoLockingPool[tiny]", FiveKind::NoLocking, five_tiny, &f8, 5, 6));
+        reg.add(five("five_level::NoLockingPool[tiny]", FiveKind::NoLocking, five_tiny, &f8, 5, 7));
         reg.add(five("five_level::NoLockingPool[tiny,align16]", FiveKind::NoLocking, five_tiny16, &[1, 16, 17, 80], 4, 5));
         reg.add(five("five_level::NoLockingPool[memory_optimized,128B]", FiveKind::NoLocking, five_memopt, &[8, 24, 32, 129], 4, 5));
-        reg.add(five("five_level::MutexBasedPool[tiny]", FiveKind::Mutex, five_tiny, &f8, 5, 6));
-        reg.add(five("five_level::LockFreePool[tiny]", FiveKind::LockFree, five_tiny, &f8, 5, 6));
+        reg.add(five("five_level::MutexBasedPool[tiny]", FiveKind::Mutex, five_tiny, &f8, 5, 7));
+        reg.add(five("five_level::LockFreePool[tiny]", FiveKind::LockFree, five_tiny, &f8, 5, 7));
         reg.add(five("five_level::ThreadLocalPool[tiny]", FiveKind::ThreadLocal, five_tiny, &[8, 16, 65], 5, 6));
-        reg.add(five("five_level::FixedCapacityPool[realtime,128B]", FiveKind::Fixed, five_realtime, &[8, 64, 65, 129], 5, 6));
+        reg.add(five("five_level::FixedCapacityPool[realtime,128B]", FiveKind::Fixed, five_realtime, &[8, 64, 65, 129], 5, 7));
         reg.add(five("five_level::FixedCapacityPool[fixed_capacity=None]", FiveKind::Fixed, five_fixed_none, &f8, 4, 5));
         reg.add(five("five_level::AdaptiveFiveLevelPool[new,realtime]", FiveKind::Adaptive(None), five_realtime, &[8, 64, 65, 129], 4, 5));
         reg.add(five("five_level::AdaptiveFiveLevelPool[SingleThread]", FiveKind::Adaptive(Some(ConcurrencyLevel::SingleThread)), five_tiny, &f8, 4, 5));
